@@ -258,11 +258,6 @@ def frameAtoms (base : Nat) : List Frame → Hole → List Atom → List PAtom
     (Atom.node fr.name fr.wide fr.skip (fill r h mid)).annot (base + sizeList fr.pre) ::
       frameAtoms (base + sizeList fr.pre + hdrLen fr.wide + fr.skip.length) r h mid
 
-/-- file offset of the first child of the innermost frame -/
-def innerBase : Nat → List Frame → Nat
-  | base, [] => base
-  | base, fr :: r => innerBase (base + sizeList fr.pre + hdrLen fr.wide + fr.skip.length) r
-
 theorem holeOffset_eq (base : Nat) (frames : List Frame) (h : Hole) :
     holeOffset base frames h = innerBase base frames + sizeList h.pre := by
   induction frames generalizing base with
